@@ -2600,6 +2600,8 @@ class CompareIntegerExpr(MathIntegerExpr):
 class BitShiftIntegerExpr(MathIntegerExpr):
     def __init__(self, left: IntegerExpr, right: IntegerExpr, towards_left: bool):
         super().__init__([left, right])
+        if right.is_literal() and not 0 <= int(right.get_literal_result()) < 64:
+            raise IllegalParseTree("Shift amount out of range", right)
         self.left = left
         self.right = right
         self.towards_left = towards_left
